@@ -19,7 +19,7 @@ type wop struct {
 
 var wnames = []string{"a", "b", "x"}
 
-var wnames1 = []string{"a", "b", "x"}
+var wnames1 = []string{"a", "b", "x", "LLLLLLLLLLLLLLLLLLLLLLLLLLLLLLLLLLLLLLLLLLLLLLLLLLLLLLLLLLLLLLLLLLLLLLLLLLLLLLLLLLLLLLLLLLLLLLLLLLLLLLLLLLLLLLLLLLLLLLLLLLLLLLLL"} // the last one is too long: a create with it fails after it has allocated an inode
 
 func (w wop) call(dirs []string) *Call {
 	c := NewCall(w.proc)
@@ -55,6 +55,8 @@ func RunWindows(seed, part, parts int, t *Trace, seg int) int {
 		}
 	}
 	pool = append(pool, wop{"RENAME", 2, 1, 1, 0}, wop{"RENAME", 2, 1, 1, 1}, wop{"RENAME", 1, 0, 2, 0}, wop{"RMDIR", 1, 2, 0, 0})
+	// requests that fail after they have changed something in memory (the abort drops the cached directory inode)
+	pool = append(pool, wop{"CREATE", 1, 3, 0, 0}, wop{"SYMLINK", 1, 3, 0, 0})
 	type exp struct {
 		v  wop
 		in []wop
